@@ -11,6 +11,9 @@ REPO = os.environ.get("VERIF_REPO", "/repo")
 SPECS = os.path.join(VERIF, "specs")
 PY = "/venv/bin/python"
 CACHE = os.environ.get("VERIF_CACHE", "/tmp/cffi_verif_cache")
+# evidence of runs against a scratch worktree (mutation experiments) must not overwrite the real one
+EVIDENCE = os.path.join(VERIF, "evidence") if REPO == "/repo" else os.environ.get(
+    "VERIF_EVIDENCE", "/tmp/cffi_verif_evidence_scratch")
 NCPU = os.cpu_count() or 4
 
 
@@ -229,6 +232,26 @@ def tlc(module, cfg=None, workers=None, simulate=None, depth=None, extra=(), env
     return TLCResult(rc, out, time.time() - t0)
 
 
+def apalache(module, inv, length=0, timeout=900, extra=()):
+    """apalache-mc check --length=N --inv=INV specs/<module>.tla -> (noerror: bool, output, wall)."""
+    out_dir = tempfile.mkdtemp(prefix="apa_")
+    cmd = ["apalache-mc", "check", "--length=%d" % length, "--inv=" + inv, "--out-dir=" + out_dir] + list(extra) + [
+        os.path.join(SPECS, module + ".tla")]
+    t0 = time.time()
+    try:
+        r = subprocess.run(cmd, capture_output=True, text=True, timeout=timeout, cwd=out_dir)
+        out = r.stdout + r.stderr
+    except subprocess.TimeoutExpired:
+        out = "TIMEOUT"
+    finally:
+        shutil.rmtree(out_dir, ignore_errors=True)
+    if "The outcome is: NoError" in out:
+        return True, out, time.time() - t0
+    if "Checker has found an error" in out:
+        return False, out, time.time() - t0
+    raise MachineryError("apalache failed on %s/%s:\n%s" % (module, inv, out[-3000:]))
+
+
 def tla_tuples(out, head):
     """Extract PrintT'ed tuples of the form <<"HEAD", ...>> from TLC output; returns the
     list of raw strings of the elements after the head (split at top level)."""
@@ -364,7 +387,7 @@ class Ctx:
                     print("KNOWN-FINDING: property=%s %s" % (self.pid, k["what"]), flush=True)
                 return False
         if len(self.violations) < 20:
-            d = os.path.join(VERIF, "evidence", "replay")
+            d = os.path.join(EVIDENCE, "replay")
             os.makedirs(d, exist_ok=True)
             path = os.path.join(d, "%s_%d.json" % (self.pid, len(self.violations)))
             with open(path, "w") as f:
@@ -386,8 +409,8 @@ class Ctx:
               "coverage": cov, "assumptions": self.assumptions,
               "wall_s": round(time.time() - self.t0, 2), "violations": len(self.violations),
               "known_findings_hit": sorted(k["key"] for k in self.known_hits.values())}
-        os.makedirs(os.path.join(VERIF, "evidence"), exist_ok=True)
-        p = os.path.join(VERIF, "evidence", self.pid + ".json")
+        os.makedirs(EVIDENCE, exist_ok=True)
+        p = os.path.join(EVIDENCE, self.pid + ".json")
         with open(p + ".tmp", "w") as f:
             json.dump(ev, f, indent=1, default=repr)
         os.rename(p + ".tmp", p)
